@@ -46,9 +46,17 @@ theorem skel_skip_comments_ok : skel_skip_comments =
      "while {call read_chunk; if {break}; while {bufidx =; call read_chunk}; bufidx =; call next_line; " ++
        "if {return}}"] := by
   decide
-theorem skel_read_single_ok : skel_read_single =
-    ["if {++bufbegin}", "decl [ptr,ec] = std::from_chars", "decl bufvw",
-     "if {throw csv::read_row conversion failed '}", "return"] := by decide
+/-- `read_single`: one leading `+` is skipped; after it either nothing (a following `-` is then taken by
+    `from_chars`), or the check `if (bufbegin != bufend && *bufbegin == '-') throw` (exact statement checked by
+    the translator, reported as `singleRejectsPlusMinus`). -/
+theorem skel_read_single_ok :
+    (singleRejectsPlusMinus = false ∧ skel_read_single =
+      ["if {++bufbegin}", "decl [ptr,ec] = std::from_chars", "decl bufvw",
+       "if {throw csv::read_row conversion failed '}", "return"]) ∨
+    (singleRejectsPlusMinus = true ∧ skel_read_single =
+      ["if {++bufbegin; if {throw csv::read_row conversion failed '}}", "decl [ptr,ec] = std::from_chars",
+       "decl bufvw", "if {throw csv::read_row conversion failed '}", "return"]) := by
+  first | exact Or.inl ⟨rfl, rfl⟩ | exact Or.inr ⟨rfl, rfl⟩
 theorem skel_next_line_ok : skel_next_line = ["if {throw csv::read_row line not fully consumed}"] := by decide
 theorem skel_done_ok : skel_done = ["decl keep_reading", "return"] := by decide
 /-- `read_row_impl` has one of the two shapes the model knows: the plain body, or the body wrapped in
@@ -75,6 +83,30 @@ theorem skel_read_row_std_vector_ok :
 /-- **Which csv.tpp this is**: the row functions have the error handler that discards the rest of a
     rejected line (finding `csv-error-leaves-stream-mid-line` fixed). -/
 theorem rows_current : rowImplResyncs = true ∧ rowVecResyncs = true := by decide
+
+/-- **Which `read_single` this is**: with the check after the skipped `+` (finding
+    `csv-plus-minus-sign-accepted` fixed). -/
+theorem single_current : singleRejectsPlusMinus = true := by decide
+
+/-- **Which `float_to_str_vw` this is**: a failing `std::to_chars` (only reachable through the `precision`
+    argument, see `printer_buffers_fit`) throws `std::length_error` (finding
+    `print-precision-overflows-buffer` fixed). -/
+theorem printer_error_code_current : floatToStrChecksEc = true := by decide
+
+/-- longest token the element printer can write at precision `digits`: sign, digit, point, `digits` digits,
+    `e`, exponent sign, `expDigits` exponent digits -/
+def longestToken (digits expDigits : Nat) : Nat := 3 + digits + 2 + expDigits
+
+/-- **At default precision `std::to_chars` cannot run out of buffer**: every element buffer of print.tpp
+    (sizes regenerated from the source) holds the longest default-precision token of every scalar type —
+    long double: max_digits10 = 21, four exponent digits (30 characters); double: 17 / 3 (25); float: 9 / 2
+    (16).  (The type constants are facts about the platform, exercised by the printer stage of the check on
+    LDBL_MAX, LDBL_MIN, the denormals and random patterns.)  Hence dropping the error code is harmless for
+    `print_csv` / `print_python` / `print_matlab` and `float_to_str(value)`; it is not for
+    `float_to_str(value, precision)` with `longestToken precision _ > 64`. -/
+theorem printer_buffers_fit :
+    printBufSizes ≠ [] ∧ ∀ n ∈ printBufSizes, longestToken 21 4 ≤ n ∧ longestToken 17 3 ≤ n ∧ longestToken 9 2 ≤ n := by
+  decide
 
 theorem printer_literals_ok :
     csvDefaults = [",", "", "\n"] ∧ matlabEnd = ";\n" ∧ pythonEnd = "\n" ∧
@@ -228,6 +260,19 @@ theorem unparsable_rejected {V : Type} (P : List Char → Option (V × Nat)) (se
       (.error .conv, shifted (L.drop j) 0, streamOf (L.drop j) tail) :=
   read_unparsable P sep L tail j hj hL ht hparse
 
+/-- **`+-…` is not a number.**  With the check after the skipped `+` (`readSingleG true`: csv.tpp with
+    fixes/C17-csv-plus-minus-sign-accepted.diff) the token is rejected whatever `from_chars` would make of it … -/
+theorem plus_minus_rejected_with_check {V : Type} (P : List Char → Option (V × Nat)) (X : List Char) (e : Nat)
+    (he : 2 ≤ e) : readSingleG true P ('+' :: '-' :: X) 0 e = none :=
+  readSingleG_plusminus_rejected P X e he
+
+/-- … and without it (`readSingleG false`) the `+` is skipped and the rest, minus sign included, goes to
+    `from_chars`: `+-3` is read as `-3`, `+-inf` as `-inf`. -/
+theorem plus_minus_accepted_without_check {V : Type} (P : List Char → Option (V × Nat)) (X : List Char) (e : Nat)
+    (he : 2 ≤ e) (v : V) (k : Nat) (hP : P (('-' :: X).take (e - 1)) = some (v, k)) :
+    readSingleG false P ('+' :: '-' :: X) 0 e = some (v, 1 + k) :=
+  readSingleG_plusminus_accepted P X e he v k hP
+
 /-- **Over-long token.**  At any chunk position, if the unread line starts with a token of more than
     64 characters (longer than the window) that does not contain the separator, `read` throws —
     whatever the number oracle makes of the first 64 characters: conversion error, unexpected
@@ -320,7 +365,7 @@ theorem row_empty_field_rejected (R' : List Char) (hR : R = sep :: R') (hsepP : 
     have hh : ((sep :: R').take 64).getD 0 ' ' = sep := by simp
     have ht : ((sep :: R').take 64).take (k + 1) = sep :: ((sep :: R').take 64).tail.take k := by
       simp
-    simp only [readSingle, hk, hh, singleSkipPlus, ht]
+    simp only [readSingle, readSingleG, hk, hh, singleSkipPlus, ht]
     simp [hplus, hsepP, singleFails]
   obtain ⟨h1, h2⟩ := row_unparsable_rejected P sep ctx tv hlen hok R hline hparse n hn
   exact ⟨h1, h2 (by subst hR; simp)⟩
@@ -331,7 +376,7 @@ theorem row_too_few_rejected (hP0 : P [] = none) (hR : R = []) (n : Nat) (hn : t
     (readRowImpl P n sep (rowStream cs L tail)).1 = .error .conv := by
   subst hR
   exact (row_unparsable_rejected P sep ctx tv hlen hok [] hline
-    (by simp [readSingle, singleSkipPlus, hP0, singleFails]) n hn).1
+    (by simp [readSingle, readSingleG, singleSkipPlus, hP0, singleFails]) n hn).1
 
 /-- **Too few fields** (last field not terminated, `1,2` with `n ≥ 3`): `R` is a last well-formed field
     that ends the line, and more than `k + 1` fields are requested. -/
@@ -503,7 +548,7 @@ theorem noNL_of_all (l : List Char) (h : l.all (· != '\n') = true) : NoNL l := 
 example : TokOK digitsP ',' ['1', '2'] 12 := by
   intro rest h
   rcases h with rfl | ⟨t, rfl⟩ <;>
-    simp [readSingle, digitsP, singleSkipPlus, singleFails, Char.isDigit]
+    simp [readSingle, readSingleG, digitsP, singleSkipPlus, singleFails, Char.isDigit]
 
 theorem dataLine_cons (c : Char) (l : List Char) (hc : c ≠ '#') : DataLine (c :: l) := by
   intro c' l' h
@@ -515,7 +560,7 @@ theorem tok_12_7 : ∀ p ∈ [((['1', '2'] : List Char), 12), (['7'], 7)], TokOK
   intro p hp
   simp at hp
   rcases hp with rfl | rfl <;> intro rest h <;> rcases h with rfl | ⟨t, rfl⟩ <;>
-    simp [readSingle, digitsP, singleSkipPlus, singleFails, Char.isDigit]
+    simp [readSingle, readSingleG, digitsP, singleSkipPlus, singleFails, Char.isDigit]
 
 theorem tok_12 : ∀ p ∈ [((['1', '2'] : List Char), 12)], TokOK digitsP ',' p.1 p.2 :=
   fun p hp => tok_12_7 p (by simp at hp ⊢; exact Or.inl hp)
@@ -561,7 +606,7 @@ example (t : List Char) :
     (readRowStdVector digitsP ',' (rowStream [['c']] ['1', '2', ',', '7', ';', '5'] ('\n' :: t))).1 = .error .sep :=
   row_wrong_separator_rejected digitsP ',' (ctxOf _ t (by decide) '1' ['2', ',', '7', ';', '5'] rfl (by decide))
     [(['1', '2'], 12)] len_12 tok_12 ['7', ';', '5'] rfl ['7'] ['5'] ';' 7 rfl (by decide) (by simp)
-    (by intro X; simp [readSingle, digitsP, singleSkipPlus, singleFails, Char.isDigit]) 3 (by simp)
+    (by intro X; simp [readSingle, readSingleG, digitsP, singleSkipPlus, singleFails, Char.isDigit]) 3 (by simp)
 
 /-- empty field in the middle (`12,,7`) and at the front (`,12`) -/
 example (t : List Char) :
@@ -700,7 +745,7 @@ example (t : List Char) :=
 example (t : List Char) :=
   wrong_separator_rejected digitsP ',' ';' ['7', ';', '5'] ('\n' :: t) ['7'] ['5'] 0 7 (by simp)
     (noNL_of_all _ (by decide)) (Or.inr ⟨t, rfl⟩) rfl (by decide) (by simp)
-    (by intro X; simp [readSingle, digitsP, singleSkipPlus, singleFails, Char.isDigit])
+    (by intro X; simp [readSingle, readSingleG, digitsP, singleSkipPlus, singleFails, Char.isDigit])
 example (t : List Char) :=
   unparsable_rejected digitsP ',' ['x', ',', '5'] ('\n' :: t) 0 (by simp) (noNL_of_all _ (by decide))
     (Or.inr ⟨t, rfl⟩) (by decide)
@@ -739,5 +784,31 @@ example (t : List Char) := read_row_empty digitsP ',' [['c']]
     (by intro b hb; simp at hb; subst hb; exact noNL_of_all _ (by decide)) t
 example := read_row_empty_eof digitsP ',' [['c']]
     (by intro b hb; simp at hb; subst hb; exact noNL_of_all _ (by decide))
+
+
+/-! #### `+-…` tokens (former finding `csv-plus-minus-sign-accepted`) -/
+
+/-- toy oracle with the `from_chars` contract on signed decimal integers (a minus sign, no plus sign) -/
+def sdigitsP (l : List Char) : Option (Int × Nat) :=
+  match l with
+  | '-' :: t => (digitsP t).map fun (v, k) => (-(v : Int), k + 1)
+  | _ => (digitsP l).map fun (v, k) => ((v : Int), k)
+
+example : readSingleG true sdigitsP ['+', '-', '3'] 0 3 = none :=
+  plus_minus_rejected_with_check sdigitsP ['3'] 3 (by simp)
+example : readSingleG false sdigitsP ['+', '-', '3'] 0 3 = some (-3, 3) :=
+  plus_minus_accepted_without_check sdigitsP ['3'] 3 (by simp) (-3) 2 (by decide)
+
+/-- the row functions the driver runs (`single_current`): `7,+-3` is rejected, the next row is intact -/
+theorem plus_minus_row_rejected :
+    readRowImpl sdigitsP 2 ',' ⟨['7', ',', '+', '-', '3', '\n', '5'], false, false⟩ =
+      (.error .conv, ⟨['5'], false, false⟩) ∧
+    readRowStdVector sdigitsP ',' ⟨['7', ',', '+', '-', '3', '\n', '5'], false, false⟩ =
+      (.error .conv, ⟨['5'], false, false⟩) := by
+  decide +kernel
+/-- `+3` and `-3` themselves are read as before -/
+example :
+    readRowImpl sdigitsP 2 ',' ⟨['+', '3', ',', '-', '3', '\n'], false, false⟩ = (.ok [3, -3], ⟨[], false, false⟩) := by
+  decide +kernel
 
 end Alpaqa.Props.C17
